@@ -13,6 +13,7 @@ package main
 import (
 	"go/constant"
 	"go/token"
+	"go/types"
 	"sort"
 	"strings"
 
@@ -283,10 +284,54 @@ func (ge *GuardEngine) FlagAlternatives(g Guard) ([]conj, bool) {
 		}
 		v, neg = u.X, !neg
 	}
+	fi := ge.info(g.Fn)
+	if call, isCall := v.(*ssa.Call); isCall {
+		// the flag computed by a bool helper: the ways the helper returns the accepting value
+		callee := call.Call.StaticCallee()
+		if callee == nil || len(callee.Blocks) == 0 || !ge.p.InModule(callee) || callee.Signature.Results().Len() != 1 {
+			return nil, false
+		}
+		if bt, ok := callee.Signature.Results().At(0).Type().Underlying().(*types.Basic); !ok || bt.Kind() != types.Bool {
+			return nil, false
+		}
+		hasLoop := false
+		cfi := ge.info(callee)
+		for _, hs := range cfi.loopsOf {
+			if len(hs) > 0 {
+				hasLoop = true
+			}
+		}
+		if !hasLoop {
+			return nil, false // a plain predicate, not an existence test
+		}
+		rejTrue := !fi.canAccept[g.Block.Succs[0]]
+		rejFalse := !fi.canAccept[g.Block.Succs[1]]
+		if rejTrue == rejFalse {
+			return nil, false
+		}
+		want := rejFalse
+		if neg {
+			want = !want
+		}
+		fd := &flagDNF{ge: ge, fi: cfi, env: ge.calleeEnv(callee, &call.Call, g.Env), memo: map[*ssa.BasicBlock][]conj{}, stack: map[*ssa.BasicBlock]bool{}}
+		var out []conj
+		for _, b := range callee.Blocks {
+			ret, ok := b.Instrs[len(b.Instrs)-1].(*ssa.Return)
+			if !ok || len(ret.Results) != 1 {
+				continue
+			}
+			sub := fd.truth(ret.Results[0], want, map[*ssa.Phi]bool{}, ret)
+			for _, pa := range fd.path(b) {
+				for _, s := range sub {
+					out = append(out, append(append(conj{}, pa...), s...))
+				}
+			}
+		}
+		return simplifyDNF(out), true
+	}
 	if _, ok := v.(*ssa.Phi); !ok {
 		return nil, false
 	}
-	fi := ge.info(g.Fn)
 	rejTrue := !fi.canAccept[g.Block.Succs[0]]
 	rejFalse := !fi.canAccept[g.Block.Succs[1]]
 	if rejTrue == rejFalse {
